@@ -243,6 +243,32 @@ def product_chunk(args):
     return out
 
 
+def api_probe_chunk(_):
+    """the interpreter API called directly, arguments by keyword and by position: every interpreter hands back the same pattern"""
+    from . import bridge
+    P = bridge.P
+    out = {'evals': 0, 'runs': 0, 'viol': []}
+    x0, X0 = P.EVar(0), P.SVar(0)
+    calls = [('metavar', (), dict(id=0, e_fresh=(x0,))), ('metavar', (1,), dict(s_fresh=(X0,), positive=(X0,))),
+             ('metavar', (2,), dict(negative=(X0,), application_context=(x0,))), ('metavar', (3, (x0,), (X0,)), {}),
+             ('evar', (), dict(id=1)), ('symbol', (), dict(name='s'))]
+    names = [nm for nm, _ in stacks([], None, set())][:5]
+    for meth, pos, kw in calls:
+        out['evals'] += 1
+        results = {}
+        for idx, nm in enumerate(names):
+            it, _ = stacks([], None, set())[idx][1]()
+            out['runs'] += 1
+            try:
+                results[nm] = ('ok', rm.show(bridge.expand(getattr(it, meth)(*pos, **kw))))
+            except Exception as ex:  # noqa: BLE001
+                results[nm] = ('raise', common.exc_family(ex))
+        if len(set(results.values())) > 1:
+            out['viol'].append(({'kind': 'api_call_differs', 'method': meth}, [meth, repr(pos), repr(kw)],
+                                f'{meth}{pos}{kw}: interpreters disagree: {results}'))
+    return out
+
+
 def replay(path: str) -> int:
     v = json.loads(open(path).read())
     print(v.get('what'))
@@ -275,6 +301,11 @@ def main(argv=None) -> int:
                     chk.violation(sig, {'descriptor': d, 'signature': sig}, what)
             else:
                 agg[k] = agg.get(k, 0) + v
+    for out in [api_probe_chunk(None)]:
+        agg['evals'] = agg.get('evals', 0) + out['evals']
+        agg['runs'] = agg.get('runs', 0) + out['runs']
+        for sig, d, what in out['viol']:
+            chk.violation(sig, {'api_call': d, 'signature': sig}, what)
     # slot budget of the shipped optimising stack (counting pass -> memoiser over the serialiser): proofs with
     # about 256 patterns worth saving must still run there, as they do on the plain serialiser
     from . import c03
